@@ -82,7 +82,8 @@ def size_real(rp, lc, sess, label, schema, pd_args, smt_env, rcfg=None, pid='pil
             pd[ma] = 'verif'
     pilot = {'uid': pid, 'description': pd.as_dict()}
     old = os.environ.pop('RADICAL_SMT', None)
-    if smt_env:
+    if smt_env or smt_env == '':
+        # ('': exported but empty, e.g. `export RADICAL_SMT=$LEVEL` with LEVEL undefined - no override)
         os.environ['RADICAL_SMT'] = str(smt_env)
     before = set(os.listdir(tempfile.gettempdir()))
     try:
@@ -399,7 +400,7 @@ def run(ctx):
         bulk = []
         staged = []
         for _ in range(nsz):
-            smt_env = rng.choice([0, 0, 0, 2, 4]) if r['cpn'] else 0
+            smt_env = rng.choice([0, 0, 0, 2, 4, '']) if r['cpn'] else rng.choice([0, 0, ''])
             smt = smt_env or r['smt']
             ac  = max(1, cpn * smt - len(r['blockedCores']))
             pdd = {'backup_nodes': rng.choice([0, 0, 1, 3])}
@@ -434,6 +435,14 @@ def run(ctx):
                 ctx.fail(bad[0], bad[1], {'kind': 'size', 'label': r['label'], 'schema': r['schema'],
                                           'pd': pdd, 'smt_env': smt_env, 'earlier_pilots_of_the_bulk': list(bulk)},
                          observed=res)
+            if smt_env == '':
+                # exported but empty is no override: the pilot alone, prepared with the variable empty and with it unset
+                ra = size_real(rp, lc, sess, r['label'], r['schema'], pdd, '')
+                rb = size_real(rp, lc, sess, r['label'], r['schema'], pdd, 0)
+                if ra != rb:
+                    ctx.fail('empty-RADICAL_SMT-changes-the-job', r['label'] + ': with $RADICAL_SMT exported but empty: %s, unset: %s' % (ra, rb),
+                             {'kind': 'size', 'label': r['label'], 'schema': r['schema'], 'pd': pdd, 'smt_env': '', 'empty_vs_unset': True,
+                              'earlier_pilots_of_the_bulk': []}, observed=ra)
             bulk.append([pdd, smt_env])
         # the files are staged once the whole bulk is prepared (_start_pilot_bulk): what each pilot's file says then
         bad_file = None
@@ -517,6 +526,12 @@ def replay(ctx, data):
         except Exception as e:
             print('observed:', repr(e))
             return False
+    if i['kind'] == 'size' and i.get('empty_vs_unset'):
+        lc = make_launcher(rp, ctx.scratch)
+        ra = size_real(rp, lc, sess, i['label'], i['schema'], i['pd'], '')
+        rb = size_real(rp, lc, sess, i['label'], i['schema'], i['pd'], 0)
+        print('empty:', ra, 'unset:', rb)
+        return ra == rb
     if i['kind'] == 'size':
         rows = [r for r in translate.resource_rows(common.SRC) if r['label'] == i['label'] and r['schema'] == i['schema']]
         lc = make_launcher(rp, ctx.scratch)
